@@ -395,6 +395,15 @@ class _StackGlobal(GhostStack):
             return GhostStack(self.segments)  # exprStack[:] : a copy
         cur().unsupported_here("exprStack indexing other than [:]")
 
+    def copy(self):
+        return GhostStack(self.segments)
+
+    def __pyvc_list__(self):  # list(exprStack)
+        return GhostStack(self.segments)
+
+    def __iter__(self):
+        cur().unsupported_here("iteration over exprStack")
+
 
 class EvalFx(Case):
     """eval_fx(fx, stats) == val(tree(fx)) whatever earlier calls left on the never-cleared
